@@ -110,6 +110,9 @@ Section Binary.
         SelMsg {| b_l := b_l b; b_r := s; b_first := first |} msg
     end.
 
+  Definition has_non_term {X} (l : list (elem X)) : bool :=
+    existsb (fun e => match e with Terminate => false | _ => true end) l.
+
   (** `select` *)
   Definition bselect (b0 : bstate) : sel_res :=
     let nterm := if sd_cached (b_l b0) then sd_inst (b_l b0)
@@ -122,12 +125,19 @@ Section Binary.
              then {| b_l := side_reset (b_l b0); b_r := side_reset (b_r b0); b_first := true |}
              else b0 in
     if b_first b && (sd_cached (b_l b) || sd_cached (b_r b)) then
-      (* ask the non-cached side first; a blocked attempt leaves first_message cleared only
-         once a message has actually been received (the call does not return otherwise) *)
+      (* ask the non-cached side first *)
+      (* `first_message` is cleared only by a batch that carries something other than
+         `Terminate` (fix F10): a batch of Terminates must not trigger the replay *)
       if sd_cached (b_l b) then
-        match recv_right b false with SelBlock _ => SelBlock b | r => r end
+        match sd_queue (b_r b) with
+        | [] => SelBlock b
+        | m :: _ => recv_right b (negb (has_non_term (snd m)))
+        end
       else
-        match recv_left b false with SelBlock _ => SelBlock b | r => r end
+        match sd_queue (b_l b) with
+        | [] => SelBlock b
+        | m :: _ => recv_left b (negb (has_non_term (snd m)))
+        end
     else if sd_cached (b_l b) && sd_cache_full (b_l b) && negb (cache_finished (b_l b)) then
       let '(s, m) := next_cached (b_l b) in
       SelMsg {| b_l := s; b_r := b_r b; b_first := b_first b |} m
